@@ -555,7 +555,11 @@ def run(tier, seed):
               [('f', 1), ('g', -1), ('a', -2)], [('n1', 1), ('n2', -1), ('b', 1)],
               [('D:0.5', 1), ('d2', 1), ('c', 2)],
               [('a', 1), ('b', 1), ('c', 1), ('e', 1)],
-              [('F:2/3', 1), ('g', 2), ('d', -1), ('n2', 1)]]
+              [('F:2/3', 1), ('g', 2), ('d', -1), ('n2', 1)],
+              # a zero factor: the term still has its elements
+              [('i:0', 1), ('a', 1)], [('b', 1), ('i:0', 1)],
+              [('D:0', 1), ('b', 1)], [('F:0/1', 2), ('g', 1)],
+              [('i:0', 1), ('d2', 1), ('c', -1)]]
     shorts += [[list(x) for x in t] for t in longer]
     total.merge(pmap(part_pairs, [shorts[i::32] for i in range(32)],
                      (shorts,)))
